@@ -29,14 +29,78 @@ type stmtInliner struct {
 	info    *types.Info
 	content func(filename string) []byte
 	seq     *int
+	typeArgs map[*types.TypeParam]types.Type // instantiation of the generic callee being inlined (nil otherwise)
+	hoisted bool // the last inlineAt / inlineLit only moved the call in front of its statement (it still exists)
 }
 
 // inlineAt tries to inline call (inside file) to the function declared by decl. Returns the new content of the caller's file.
 func (si *stmtInliner) inlineAt(file *ast.File, call *ast.CallExpr, fn *types.Func, decl *ast.FuncDecl) ([]byte, error) {
 	sig := fn.Type().(*types.Signature)
+	si.typeArgs = nil
+	if sig.TypeParams().Len() > 0 {
+		// a generic function: the call site's instantiation gives the signature and the type arguments that replace
+		// the type parameters in the copied body
+		id := calleeIdent(call)
+		inst, ok := si.info.Instances[id]
+		if id == nil || !ok || inst.TypeArgs.Len() != sig.TypeParams().Len() {
+			return nil, fmt.Errorf("generic callee without instantiation")
+		}
+		isig, ok := inst.Type.(*types.Signature)
+		if !ok {
+			return nil, fmt.Errorf("generic callee without instantiation")
+		}
+		si.typeArgs = map[*types.TypeParam]types.Type{}
+		for i := 0; i < sig.TypeParams().Len(); i++ {
+			si.typeArgs[sig.TypeParams().At(i)] = inst.TypeArgs.At(i)
+		}
+		sig = isig
+	}
+	return si.inlineCore(file, call, sig, fn, decl)
+}
+
+// inlineLit inlines the call of a function literal: `v(args)` for a local `v := func(…) … { … }` that is only ever
+// called (self is v's object), or an immediately invoked literal (self nil). The body shares the caller's scope, so the
+// variables it captures keep their names; a name that means something else at the call site makes the call ineligible.
+func (si *stmtInliner) inlineLit(file *ast.File, call *ast.CallExpr, lit *ast.FuncLit, self types.Object) ([]byte, error) {
+	sig, ok := si.info.TypeOf(lit).(*types.Signature)
+	if !ok {
+		return nil, fmt.Errorf("literal without signature")
+	}
+	inner := si.pkg.Scope().Innermost(call.Pos())
+	bad := ""
+	ast.Inspect(lit.Body, func(n ast.Node) bool {
+		id, ok := n.(*ast.Ident)
+		if !ok || bad != "" {
+			return bad == ""
+		}
+		obj := si.info.Uses[id]
+		if obj == nil || obj.Pkg() != si.pkg || obj.Parent() == si.pkg.Scope() || obj.Parent() == nil {
+			return true // not a local of the enclosing function (fields and methods have no parent scope)
+		}
+		if obj.Pos() >= lit.Pos() && obj.Pos() < lit.End() {
+			return true // the literal's own parameter / local
+		}
+		if inner == nil {
+			bad = id.Name
+			return false
+		}
+		if _, found := inner.LookupParent(id.Name, call.Pos()); found != obj {
+			bad = id.Name
+		}
+		return true
+	})
+	if bad != "" {
+		return nil, fmt.Errorf("captured name %s means something else at the call", bad)
+	}
+	decl := &ast.FuncDecl{Name: &ast.Ident{Name: "_"}, Type: lit.Type, Body: lit.Body}
+	return si.inlineCore(file, call, sig, self, decl)
+}
+
+func (si *stmtInliner) inlineCore(file *ast.File, call *ast.CallExpr, sig *types.Signature, fn types.Object, decl *ast.FuncDecl) ([]byte, error) {
 	if sig.TypeParams().Len() > 0 || sig.RecvTypeParams().Len() > 0 {
 		return nil, fmt.Errorf("generic callee")
 	}
+
 	// defers the inliner can replay: top-level statements of the body of the form `defer a.b.M()` / `defer f()` without
 	// arguments (the unlock idiom). They are removed and their calls are run, last registered first, before every exit that
 	// follows them, after the results were evaluated — what the runtime does on a normal return. (A panic in the body
@@ -116,7 +180,7 @@ func (si *stmtInliner) inlineAt(file *ast.File, call *ast.CallExpr, fn *types.Fu
 			if id, ok := x.Fun.(*ast.Ident); ok && id.Name == "recover" {
 				bad = "recover"
 			}
-			if id := calleeIdent(x); id != nil && si.info.Uses[id] == types.Object(fn) {
+			if id := calleeIdent(x); id != nil && fn != nil && si.info.Uses[id] == fn {
 				bad = "recursion"
 			}
 		}
@@ -223,6 +287,7 @@ func (si *stmtInliner) inlineAt(file *ast.File, call *ast.CallExpr, fn *types.Fu
 		// the next round inlines that
 		if sig.Results().Len() == 1 && hoistable(stmt, call) {
 			*si.seq++
+			si.hoisted = true
 			tmp := fmt.Sprintf("t_h%d", *si.seq)
 			src := si.content(si.fset.Position(file.Pos()).Filename)
 			o := func(p token.Pos) int { return si.fset.Position(p).Offset }
@@ -315,6 +380,9 @@ func (si *stmtInliner) inlineAt(file *ast.File, call *ast.CallExpr, fn *types.Fu
 	for i := 0; i < sig.Results().Len(); i++ {
 		typeMention(sig.Results().At(i).Type())
 	}
+	for _, ta := range si.typeArgs {
+		typeMention(ta)
+	}
 	have := map[string]string{}
 	for _, im := range file.Imports {
 		p := strings.Trim(im.Path.Value, "\"")
@@ -385,9 +453,94 @@ func (si *stmtInliner) inlineAt(file *ast.File, call *ast.CallExpr, fn *types.Fu
 	for id := range tsIdents {
 		tsNames[id.Name] = true
 	}
+	// a function-typed parameter that receives a package-level function by name and is never assigned in the body is
+	// replaced by that name (sortBy(xs, byScore): `less(a, b)` becomes `byScore(a, b)`, a static call)
+	substName := map[string]string{} // parameter name -> argument text
+	substObj := map[types.Object]string{}
+	if sig.Recv() == nil || len(paramVars) == len(argExprs) {
+		for i, v := range paramVars {
+			if v.Name() == "" || v.Name() == "_" {
+				continue
+			}
+			aid, isID := argExprs[i].(*ast.Ident)
+			if !isID {
+				continue
+			}
+			switch f := si.info.Uses[aid].(type) {
+			case *types.Func:
+				if _, isFn := v.Type().Underlying().(*types.Signature); !isFn {
+					continue
+				}
+				if f.Pkg() != si.pkg || f.Type().(*types.Signature).Recv() != nil || f.Type().(*types.Signature).TypeParams().Len() > 0 {
+					continue
+				}
+			case *types.Var:
+				// a local variable of the caller handed to a read-only parameter of a declared function (which cannot
+				// reach the caller's locals): the parameter is that variable. The types must agree exactly (no implicit
+				// conversion to an interface at the call).
+				if fn == nil || f.IsField() || f.Parent() == si.pkg.Scope() || !types.Identical(f.Type(), v.Type()) {
+					continue
+				}
+				if _, isDecl := fn.(*types.Func); !isDecl {
+					continue
+				}
+			default:
+				continue
+			}
+			// the parameter object inside the declaration
+			var pobj types.Object
+			ast.Inspect(decl.Type, func(n ast.Node) bool {
+				if id, ok := n.(*ast.Ident); ok && id.Name == v.Name() {
+					if o := si.info.Defs[id]; o != nil {
+						pobj = o
+					}
+				}
+				return true
+			})
+			if pobj == nil {
+				continue
+			}
+			assigned := false
+			ast.Inspect(decl.Body, func(n ast.Node) bool {
+				switch y := n.(type) {
+				case *ast.AssignStmt:
+					for _, l := range y.Lhs {
+						if lid, ok := l.(*ast.Ident); ok && (si.info.Uses[lid] == pobj || si.info.Defs[lid] == pobj) {
+							assigned = true
+						}
+					}
+				case *ast.UnaryExpr:
+					if y.Op == token.AND {
+						if lid, ok := y.X.(*ast.Ident); ok && si.info.Uses[lid] == pobj {
+							assigned = true
+						}
+					}
+				}
+				return true
+			})
+			if !assigned {
+				substName[v.Name()] = aid.Name
+				substObj[pobj] = aid.Name
+			}
+		}
+	}
 	rename := func(id *ast.Ident) (string, bool) {
 		if id.Name == "_" {
 			return "", false
+		}
+		if o := si.info.Uses[id]; o != nil {
+			if t, ok := substObj[o]; ok {
+				return t, true
+			}
+		}
+		if si.typeArgs != nil {
+			if tn, ok := si.info.Uses[id].(*types.TypeName); ok {
+				if tp, ok := tn.Type().(*types.TypeParam); ok {
+					if ta, ok := si.typeArgs[tp]; ok {
+						return tstr(ta, qual), true
+					}
+				}
+			}
 		}
 		if tsIdents[id] {
 			return id.Name + sfx, true
@@ -568,6 +721,9 @@ func (si *stmtInliner) inlineAt(file *ast.File, call *ast.CallExpr, fn *types.Fu
 			fmt.Fprintf(&b, "var _ %s = %s\n", typ, argText)
 			continue
 		}
+		if _, subst := substName[name]; subst {
+			continue
+		}
 		fmt.Fprintf(&b, "var %s%s %s = %s\n_ = %s%s\n", name, sfx, typ, argText, name, sfx)
 	}
 	b.Write(body)
@@ -607,7 +763,14 @@ func (si *stmtInliner) inlineAt(file *ast.File, call *ast.CallExpr, fn *types.Fu
 }
 
 func calleeIdent(c *ast.CallExpr) *ast.Ident {
-	switch f := c.Fun.(type) {
+	fun := c.Fun
+	switch ix := fun.(type) {
+	case *ast.IndexExpr:
+		fun = ix.X
+	case *ast.IndexListExpr:
+		fun = ix.X
+	}
+	switch f := fun.(type) {
 	case *ast.Ident:
 		return f
 	case *ast.SelectorExpr:
@@ -622,6 +785,9 @@ func plainLvalue(e ast.Expr) bool {
 		return true
 	case *ast.SelectorExpr:
 		return plainLvalue(x.X)
+	case *ast.IndexExpr:
+		// x.f[i] with a plain container and a plain index: evaluating them before or after the callee is the same
+		return plainLvalue(x.X) && pureOperand(x.Index)
 	}
 	return false
 }
